@@ -393,10 +393,12 @@ Proof.
 Qed.
 
 (* ids found by the scans are in range *)
+Lemma positions_mask_range w m id : In id (positions (mask_bits w m)) -> 1 <= id <= Z.of_nat w.
+Proof. intro H. apply positions_range in H. unfold mask_bits in H. now rewrite bits_of_length in H. Qed.
 Theorem sat_ids_range a id : In id (sat_ids a) -> 1 <= id <= 64.
-Proof. intro H. apply positions_range in H. unfold mask_bits in H. rewrite bits_of_length in H. lia. Qed.
+Proof. exact (positions_mask_range 64 a id). Qed.
 Theorem sig_ids_range b id : In id (sig_ids b) -> 1 <= id <= 32.
-Proof. intro H. apply positions_range in H. unfold mask_bits in H. rewrite bits_of_length in H. lia. Qed.
+Proof. exact (positions_mask_range 32 b id). Qed.
 
 (* ====================== consequences: the i-th entry ====================== *)
 (* satellite entry k+1 is labelled with the PRN of the (k+1)-th set bit of DF394, counted from the MSB *)
@@ -495,3 +497,457 @@ Proof.
   - intros s H. unfold prn_label. now rewrite <- zassoc_zlookup, H.
   - intros band code H. unfold sig_label. now rewrite <- zassoc_zlookup, H.
 Qed.
+
+(* ====================== the PRN / CELLPRN / CELLSIG pseudo-fields in _set_attribute_single ====================== *)
+Section SetSingle.
+Variable T : tables.
+Local Open Scope string_scope.
+
+(* field names without a side effect in _set_attribute_single (the derived label fields are "PRN", "CELLPRN", "CELLSIG") *)
+Definition plain_name (anam:string) : Prop :=
+  anam <> "DF394" /\ anam <> "DF395" /\ anam <> "DF396" /\ anam <> "IDF038".
+
+(* the label a derived field of type ty takes: a pure dictionary lookup at index[0] *)
+Definition label_of (ty:dtype) (o:obj) (index:list Z) : outcome string :=
+  do i <- first_index index;
+  match ty with
+  | TPRN => match o_satmap o with None => Foreign XType | Some m =>
+              match zassoc i m with Some x => Ok x | None => Foreign XKey end end
+  | TCPR => match o_cellmap o with None => Foreign XType | Some m =>
+              match zassoc i m with Some x => Ok (fst x) | None => Foreign XKey end end
+  | TCSG => match o_cellmap o with None => Foreign XType | Some m =>
+              match zassoc i m with Some x => Ok (snd x) | None => Foreign XKey end end
+  | _ => Foreign XOther
+  end.
+
+Lemma set_single_label ident anam index fd o offset :
+  find_field T anam = Some fd -> (df_ty fd = TPRN \/ df_ty fd = TCPR \/ df_ty fd = TCSG) -> plain_name anam ->
+  set_single T ident anam index (o, offset) =
+  (do x <- label_of (df_ty fd) o index;
+   do o1 <- setattr o (render_name anam index) (VStr (codes x));
+   Ok (o1, offset + df_bits fd)).
+Proof.
+  intros Hf Hty (N1 & N2 & N3 & N4).
+  apply String.eqb_neq in N1, N2, N3, N4.
+  unfold set_single. rewrite Hf, N1, N2, N3, N4. cbn [obind orb].
+  unfold label_of.
+  destruct Hty as [E|[E|E]]; rewrite E; destruct (first_index index) as [i| | |]; cbn [obind]; try reflexivity.
+  - destruct (o_satmap o) as [m|]; [destruct (zassoc i m)|]; reflexivity.
+  - destruct (o_cellmap o) as [m|]; [destruct (zassoc i m)|]; reflexivity.
+  - destruct (o_cellmap o) as [m|]; [destruct (zassoc i m)|]; reflexivity.
+Qed.
+
+(* what storing a label does: one attribute written under the indexed name; the bit offset advances by the
+   field's declared width (0 for the derived label fields: see label_fields_zero_width in Spec/Pinned.v) *)
+Definition stored (o:obj) (anam:string) (index:list Z) (label:string) : obj :=
+  with_attrs o (upd (render_name anam index) (VStr (codes label)) (o_attrs o)).
+
+Lemma set_single_label_ok ident anam index fd o offset x :
+  find_field T anam = Some fd -> (df_ty fd = TPRN \/ df_ty fd = TCPR \/ df_ty fd = TCSG) -> plain_name anam ->
+  o_immutable o = false -> label_of (df_ty fd) o index = Ok x ->
+  set_single T ident anam index (o, offset) = Ok (stored o anam index x, offset + df_bits fd).
+Proof.
+  intros Hf Hty Hn Him Hl. rewrite (set_single_label ident anam index fd o offset Hf Hty Hn), Hl.
+  cbn [obind]. unfold setattr. rewrite Him. reflexivity.
+Qed.
+
+(* converse: whenever the call succeeds, the value stored is the label found in the map, nothing else *)
+Lemma set_single_label_inv ident anam index fd o offset r :
+  find_field T anam = Some fd -> (df_ty fd = TPRN \/ df_ty fd = TCPR \/ df_ty fd = TCSG) -> plain_name anam ->
+  set_single T ident anam index (o, offset) = Ok r ->
+  exists x, label_of (df_ty fd) o index = Ok x /\ o_immutable o = false /\
+            r = (stored o anam index x, offset + df_bits fd).
+Proof.
+  intros Hf Hty Hn H. rewrite (set_single_label ident anam index fd o offset Hf Hty Hn) in H.
+  destruct (label_of (df_ty fd) o index) as [x| | |]; cbn [obind] in H; try discriminate.
+  unfold setattr in H. destruct (o_immutable o); cbn [obind] in H; [discriminate|].
+  exists x. repeat split. now inversion H.
+Qed.
+
+(* ---------- PRN ---------- *)
+Theorem set_single_prn ident anam index fd o offset i rest m x :
+  find_field T anam = Some fd -> df_ty fd = TPRN -> plain_name anam ->
+  index = i :: rest -> o_immutable o = false -> o_satmap o = Some m -> zassoc i m = Some x ->
+  set_single T ident anam index (o, offset) = Ok (stored o anam index x, offset + df_bits fd).
+Proof.
+  intros Hf Hty Hn Hi Him Hm Hx. apply set_single_label_ok; auto.
+  rewrite Hty, Hi. unfold label_of. cbn [first_index obind]. now rewrite Hm, Hx.
+Qed.
+
+Theorem set_single_prn_fail ident anam index fd o offset :
+  find_field T anam = Some fd -> df_ty fd = TPRN -> plain_name anam ->
+  (index = [] -> set_single T ident anam index (o, offset) = Foreign XIndex) /\
+  (forall i rest, index = i :: rest -> o_satmap o = None ->
+     set_single T ident anam index (o, offset) = Foreign XType) /\
+  (forall i rest m, index = i :: rest -> o_satmap o = Some m -> zassoc i m = None ->
+     set_single T ident anam index (o, offset) = Foreign XKey).
+Proof.
+  intros Hf Hty Hn.
+  rewrite (set_single_label ident anam index fd o offset Hf (or_introl Hty) Hn), Hty. unfold label_of.
+  repeat split.
+  - intros ->. reflexivity.
+  - intros i rest -> Hm. cbn [first_index obind]. now rewrite Hm.
+  - intros i rest m -> Hm Hx. cbn [first_index obind]. now rewrite Hm, Hx.
+Qed.
+
+Theorem set_single_prn_inv ident anam index fd o offset r :
+  find_field T anam = Some fd -> df_ty fd = TPRN -> plain_name anam ->
+  set_single T ident anam index (o, offset) = Ok r ->
+  exists i rest m x, index = i :: rest /\ o_satmap o = Some m /\ zassoc i m = Some x /\
+                     o_immutable o = false /\ r = (stored o anam index x, offset + df_bits fd).
+Proof.
+  intros Hf Hty Hn H.
+  destruct (set_single_label_inv ident anam index fd o offset r Hf (or_introl Hty) Hn H) as (x & Hl & Him & Hr).
+  rewrite Hty in Hl. unfold label_of in Hl.
+  destruct index as [|i rest]; [discriminate|]. cbn [first_index obind] in Hl.
+  destruct (o_satmap o) as [m|]; [|discriminate].
+  destruct (zassoc i m) as [y|] eqn:Hy; [|discriminate].
+  inversion Hl; subst y. exists i, rest, m, x. auto.
+Qed.
+
+(* ---------- CELLPRN ---------- *)
+Theorem set_single_cpr ident anam index fd o offset i rest m x :
+  find_field T anam = Some fd -> df_ty fd = TCPR -> plain_name anam ->
+  index = i :: rest -> o_immutable o = false -> o_cellmap o = Some m -> zassoc i m = Some x ->
+  set_single T ident anam index (o, offset) = Ok (stored o anam index (fst x), offset + df_bits fd).
+Proof.
+  intros Hf Hty Hn Hi Him Hm Hx. apply set_single_label_ok; auto.
+  rewrite Hty, Hi. unfold label_of. cbn [first_index obind]. now rewrite Hm, Hx.
+Qed.
+
+Theorem set_single_cpr_fail ident anam index fd o offset :
+  find_field T anam = Some fd -> df_ty fd = TCPR -> plain_name anam ->
+  (index = [] -> set_single T ident anam index (o, offset) = Foreign XIndex) /\
+  (forall i rest, index = i :: rest -> o_cellmap o = None ->
+     set_single T ident anam index (o, offset) = Foreign XType) /\
+  (forall i rest m, index = i :: rest -> o_cellmap o = Some m -> zassoc i m = None ->
+     set_single T ident anam index (o, offset) = Foreign XKey).
+Proof.
+  intros Hf Hty Hn.
+  rewrite (set_single_label ident anam index fd o offset Hf (or_intror (or_introl Hty)) Hn), Hty. unfold label_of.
+  repeat split.
+  - intros ->. reflexivity.
+  - intros i rest -> Hm. cbn [first_index obind]. now rewrite Hm.
+  - intros i rest m -> Hm Hx. cbn [first_index obind]. now rewrite Hm, Hx.
+Qed.
+
+Theorem set_single_cpr_inv ident anam index fd o offset r :
+  find_field T anam = Some fd -> df_ty fd = TCPR -> plain_name anam ->
+  set_single T ident anam index (o, offset) = Ok r ->
+  exists i rest m x, index = i :: rest /\ o_cellmap o = Some m /\ zassoc i m = Some x /\
+                     o_immutable o = false /\ r = (stored o anam index (fst x), offset + df_bits fd).
+Proof.
+  intros Hf Hty Hn H.
+  destruct (set_single_label_inv ident anam index fd o offset r Hf (or_intror (or_introl Hty)) Hn H) as (x & Hl & Him & Hr).
+  rewrite Hty in Hl. unfold label_of in Hl.
+  destruct index as [|i rest]; [discriminate|]. cbn [first_index obind] in Hl.
+  destruct (o_cellmap o) as [m|]; [|discriminate].
+  destruct (zassoc i m) as [y|] eqn:Hy; [|discriminate].
+  inversion Hl; subst x. exists i, rest, m, y. auto.
+Qed.
+
+(* ---------- CELLSIG ---------- *)
+Theorem set_single_csg ident anam index fd o offset i rest m x :
+  find_field T anam = Some fd -> df_ty fd = TCSG -> plain_name anam ->
+  index = i :: rest -> o_immutable o = false -> o_cellmap o = Some m -> zassoc i m = Some x ->
+  set_single T ident anam index (o, offset) = Ok (stored o anam index (snd x), offset + df_bits fd).
+Proof.
+  intros Hf Hty Hn Hi Him Hm Hx. apply set_single_label_ok; auto.
+  rewrite Hty, Hi. unfold label_of. cbn [first_index obind]. now rewrite Hm, Hx.
+Qed.
+
+Theorem set_single_csg_fail ident anam index fd o offset :
+  find_field T anam = Some fd -> df_ty fd = TCSG -> plain_name anam ->
+  (index = [] -> set_single T ident anam index (o, offset) = Foreign XIndex) /\
+  (forall i rest, index = i :: rest -> o_cellmap o = None ->
+     set_single T ident anam index (o, offset) = Foreign XType) /\
+  (forall i rest m, index = i :: rest -> o_cellmap o = Some m -> zassoc i m = None ->
+     set_single T ident anam index (o, offset) = Foreign XKey).
+Proof.
+  intros Hf Hty Hn.
+  rewrite (set_single_label ident anam index fd o offset Hf (or_intror (or_intror Hty)) Hn), Hty. unfold label_of.
+  repeat split.
+  - intros ->. reflexivity.
+  - intros i rest -> Hm. cbn [first_index obind]. now rewrite Hm.
+  - intros i rest m -> Hm Hx. cbn [first_index obind]. now rewrite Hm, Hx.
+Qed.
+
+Theorem set_single_csg_inv ident anam index fd o offset r :
+  find_field T anam = Some fd -> df_ty fd = TCSG -> plain_name anam ->
+  set_single T ident anam index (o, offset) = Ok r ->
+  exists i rest m x, index = i :: rest /\ o_cellmap o = Some m /\ zassoc i m = Some x /\
+                     o_immutable o = false /\ r = (stored o anam index (snd x), offset + df_bits fd).
+Proof.
+  intros Hf Hty Hn H.
+  destruct (set_single_label_inv ident anam index fd o offset r Hf (or_intror (or_intror Hty)) Hn H) as (x & Hl & Him & Hr).
+  rewrite Hty in Hl. unfold label_of in Hl.
+  destruct index as [|i rest]; [discriminate|]. cbn [first_index obind] in Hl.
+  destruct (o_cellmap o) as [m|]; [|discriminate].
+  destruct (zassoc i m) as [y|] eqn:Hy; [|discriminate].
+  inversion Hl; subst x. exists i, rest, m, y. auto.
+Qed.
+End SetSingle.
+
+Section Masks.
+Variable T : tables.
+Local Open Scope string_scope.
+
+Lemma get_bits_lt p L off w bits : get_bits p L off w = Ok bits -> (bits < 2^Z.to_N w)%N.
+Proof.
+  unfold get_bits. destruct ((L - off - w <? 0)%Z || (w <? 0)%Z); [discriminate|].
+  intro H. inversion H. rewrite N.land_ones. apply N.mod_lt. apply N.pow_nonzero. discriminate.
+Qed.
+
+(* DF394 / DF395: the decoded mask bits are stored (scaled by the table's resolution, 0 = none) and NSat / NSig
+   is set to their popcount; with popcount_positions and get_bits_lt that is the number of ids in the mask *)
+Theorem set_single_df394 ident index fd o offset o' off' :
+  find_field T "DF394" = Some fd -> df_ty fd = TBIT ->
+  set_single T ident "DF394" index (o, offset) = Ok (o', off') ->
+  exists bits v,
+    get_bits (o_payloadi o) (8 * Z.of_nat (List.length (o_payload o))) offset (df_bits fd) = Ok bits /\
+    scale (Z.of_N bits) (df_res fd) = Ok v /\
+    o' = with_attrs o (upd (t_nsat T) (VInt (popcount bits)) (upd (render_name "DF394" index) v (o_attrs o))) /\
+    off' = offset + df_bits fd.
+Proof.
+  intros Hf Hty H. unfold set_single in H. rewrite Hf, Hty in H.
+  change ("DF394" =? "DF396") with false in H. change ("DF394" =? "DF394") with true in H.
+  change ("DF394" =? "IDF038") with false in H. cbn [obind orb] in H.
+  destruct (get_bits _ _ _ _) as [bits| | |] eqn:Hgb; cbn [obind] in H; try discriminate.
+  destruct (scale _ _) as [v| | |] eqn:Hsc; cbn [obind] in H; try discriminate.
+  unfold setattr in H. destruct (o_immutable o) eqn:Him; cbn [obind] in H; [discriminate|].
+  cbn [with_attrs o_immutable] in H. rewrite Him in H. cbn [obind] in H.
+  exists bits, v. inversion H. repeat split; assumption.
+Qed.
+
+Theorem set_single_df395 ident index fd o offset o' off' :
+  find_field T "DF395" = Some fd -> df_ty fd = TBIT ->
+  set_single T ident "DF395" index (o, offset) = Ok (o', off') ->
+  exists bits v,
+    get_bits (o_payloadi o) (8 * Z.of_nat (List.length (o_payload o))) offset (df_bits fd) = Ok bits /\
+    scale (Z.of_N bits) (df_res fd) = Ok v /\
+    o' = with_attrs o (upd (t_nsig T) (VInt (popcount bits)) (upd (render_name "DF395" index) v (o_attrs o))) /\
+    off' = offset + df_bits fd.
+Proof.
+  intros Hf Hty H. unfold set_single in H. rewrite Hf, Hty in H.
+  change ("DF395" =? "DF396") with false in H. change ("DF395" =? "DF394") with false in H.
+  change ("DF395" =? "DF395") with true in H.
+  change ("DF395" =? "IDF038") with false in H. cbn [obind orb] in H.
+  destruct (get_bits _ _ _ _) as [bits| | |] eqn:Hgb; cbn [obind] in H; try discriminate.
+  destruct (scale _ _) as [v| | |] eqn:Hsc; cbn [obind] in H; try discriminate.
+  unfold setattr in H. destruct (o_immutable o) eqn:Him; cbn [obind] in H; [discriminate|].
+  cbn [with_attrs o_immutable] in H. rewrite Him in H. cbn [obind] in H.
+  exists bits, v. inversion H. repeat split; assumption.
+Qed.
+
+(* DF396: width NSat*NSig, NCell := popcount, then the maps are built from the three stored masks *)
+Theorem set_single_df396 ident index fd o offset o' off' :
+  find_field T "DF396" = Some fd -> df_ty fd = TBITX ->
+  set_single T ident "DF396" index (o, offset) = Ok (o', off') ->
+  exists nsat nsig bits v,
+    getint o (t_nsat T) = Ok nsat /\ getint o (t_nsig T) = Ok nsig /\
+    get_bits (o_payloadi o) (8 * Z.of_nat (List.length (o_payload o))) offset (nsat * nsig) = Ok bits /\
+    scale (Z.of_N bits) (df_res fd) = Ok v /\
+    getsatcellmaps T ident
+      (with_attrs o (upd (t_ncell T) (VInt (popcount bits)) (upd (render_name "DF396" index) v (o_attrs o)))) = Ok o' /\
+    off' = offset + nsat * nsig.
+Proof.
+  intros Hf Hty H. unfold set_single in H. rewrite Hf, Hty in H.
+  change ("DF396" =? "DF396") with true in H. change ("DF396" =? "DF394") with false in H.
+  change ("DF396" =? "DF395") with false in H.
+  change ("DF396" =? "IDF038") with false in H. cbn [obind orb] in H.
+  destruct (getint o (t_nsat T)) as [nsat| | |] eqn:Hns; cbn [obind] in H; try discriminate.
+  destruct (getint o (t_nsig T)) as [nsig| | |] eqn:Hng; cbn [obind] in H; try discriminate.
+  destruct (get_bits _ _ _ _) as [bits| | |] eqn:Hgb; cbn [obind] in H; try discriminate.
+  destruct (scale _ _) as [v| | |] eqn:Hsc; cbn [obind] in H; try discriminate.
+  unfold setattr in H. destruct (o_immutable o) eqn:Him; cbn [obind] in H; [discriminate|].
+  cbn [with_attrs o_immutable] in H. rewrite Him in H. cbn [obind] in H.
+  destruct (getsatcellmaps T ident _) as [o2| | |] eqn:Hg; cbn [obind] in H; try discriminate.
+  exists nsat, nsig, bits, v. inversion H. subst. repeat split; assumption.
+Qed.
+End Masks.
+
+(* ====================== end to end ====================== *)
+Section EndToEnd.
+Variable T : tables.
+
+Corollary getsatcellmaps_components ident o a b c prnmap sigmap :
+  getint o "DF394" = Ok a -> getint o "DF395" = Ok b -> getint o "DF396" = Ok c ->
+  assoc (substring 0 3 ident) (t_prnsig T) = Some (prnmap, sigmap) ->
+  0 <= a < 2^64 -> 0 <= b < 2^32 -> 0 <= c ->
+  exists o', getsatcellmaps T ident o = Ok o' /\
+    o_satmap o' = Some (number (map (prn_label prnmap (t_na T)) (sat_ids a))) /\
+    o_cellmap o' = Some (number (map (fun '(s, g) => (prn_label prnmap (t_na T) s,
+                                                       sig_label sigmap (t_na T) (negb (o_labelmsm o =? 2)) g))
+                                     (cells (sat_ids a) (sig_ids b) c))) /\
+    o_immutable o' = o_immutable o /\ o_payload o' = o_payload o /\ o_payloadi o' = o_payloadi o /\
+    o_labelmsm o' = o_labelmsm o /\ o_unknown o' = o_unknown o /\ o_attrs o' = o_attrs o.
+Proof.
+  intros Ha Hb Hc Hk Ra Rb Rc. eexists. split.
+  - apply (getsatcellmaps_spec T ident o a b c prnmap sigmap); assumption.
+  - repeat split.
+Qed.
+
+Theorem getsatcellmaps_no_table ident o :
+  assoc (substring 0 3 ident) (t_prnsig T) = None -> getsatcellmaps T ident o = Foreign XKey.
+Proof. intro H. unfold getsatcellmaps. now rewrite H. Qed.
+
+(* PRN_k: the label of the k-th set bit of the satellite mask (k = index[0], 1-based) *)
+Theorem set_single_prn_msm ident anam index fd o offset prnmap a (k:nat) rest :
+  find_field T anam = Some fd -> df_ty fd = TPRN -> plain_name anam -> o_immutable o = false ->
+  o_satmap o = Some (spec_satmap prnmap (t_na T) a) ->
+  index = (Z.of_nat k + 1) :: rest -> (k < List.length (sat_ids a))%nat ->
+  set_single T ident anam index (o, offset) =
+  Ok (stored o anam index (prn_label prnmap (t_na T) (nth k (sat_ids a) 0)), offset + df_bits fd).
+Proof.
+  intros Hf Hty Hn Him Hm Hi Hk.
+  apply (set_single_prn T ident anam index fd o offset _ rest _ _ Hf Hty Hn Hi Him Hm).
+  now apply satmap_nth.
+Qed.
+
+Theorem set_single_prn_msm_outside ident anam index fd o offset prnmap a i rest :
+  find_field T anam = Some fd -> df_ty fd = TPRN -> plain_name anam ->
+  o_satmap o = Some (spec_satmap prnmap (t_na T) a) ->
+  index = i :: rest -> (i < 1 \/ Z.of_nat (List.length (sat_ids a)) < i) ->
+  set_single T ident anam index (o, offset) = Foreign XKey.
+Proof.
+  intros Hf Hty Hn Hm Hi Hr.
+  destruct (set_single_prn_fail T ident anam index fd o offset Hf Hty Hn) as (_ & _ & F).
+  apply (F i rest _ Hi Hm). now apply satmap_outside.
+Qed.
+
+(* CELLPRN_k / CELLSIG_k: satellite and signal of the k-th set bit of the cell mask, satellite-major *)
+Theorem set_single_cpr_msm ident anam index fd o offset prnmap sigmap rinex a b c (k:nat) rest :
+  find_field T anam = Some fd -> df_ty fd = TCPR -> plain_name anam -> o_immutable o = false ->
+  o_cellmap o = Some (spec_cellmap prnmap sigmap (t_na T) rinex a b c) ->
+  let nsig := List.length (sig_ids b) in
+  let setbits := positions (mask_bits (List.length (sat_ids a) * nsig) c) in
+  index = (Z.of_nat k + 1) :: rest -> (k < List.length setbits)%nat ->
+  let q := Z.to_nat (nth k setbits 0 - 1) in
+  set_single T ident anam index (o, offset) =
+  Ok (stored o anam index (prn_label prnmap (t_na T) (nth (q / nsig) (sat_ids a) 0)), offset + df_bits fd).
+Proof.
+  intros Hf Hty Hn Him Hm nsig setbits Hi Hk q.
+  destruct (cellmap_nth prnmap sigmap (t_na T) rinex a b c k Hk) as (_ & _ & Hz).
+  apply (set_single_cpr T ident anam index fd o offset _ rest _ _ Hf Hty Hn Hi Him Hm Hz).
+Qed.
+
+Theorem set_single_csg_msm ident anam index fd o offset prnmap sigmap rinex a b c (k:nat) rest :
+  find_field T anam = Some fd -> df_ty fd = TCSG -> plain_name anam -> o_immutable o = false ->
+  o_cellmap o = Some (spec_cellmap prnmap sigmap (t_na T) rinex a b c) ->
+  let nsig := List.length (sig_ids b) in
+  let setbits := positions (mask_bits (List.length (sat_ids a) * nsig) c) in
+  index = (Z.of_nat k + 1) :: rest -> (k < List.length setbits)%nat ->
+  let q := Z.to_nat (nth k setbits 0 - 1) in
+  set_single T ident anam index (o, offset) =
+  Ok (stored o anam index (sig_label sigmap (t_na T) rinex (nth (q mod nsig) (sig_ids b) 0)), offset + df_bits fd).
+Proof.
+  intros Hf Hty Hn Him Hm nsig setbits Hi Hk q.
+  destruct (cellmap_nth prnmap sigmap (t_na T) rinex a b c k Hk) as (_ & _ & Hz).
+  apply (set_single_csg T ident anam index fd o offset _ rest _ _ Hf Hty Hn Hi Him Hm Hz).
+Qed.
+
+Theorem set_single_cell_msm_outside ident anam index fd o offset prnmap sigmap rinex a b c i rest :
+  find_field T anam = Some fd -> (df_ty fd = TCPR \/ df_ty fd = TCSG) -> plain_name anam ->
+  o_cellmap o = Some (spec_cellmap prnmap sigmap (t_na T) rinex a b c) ->
+  index = i :: rest ->
+  (i < 1 \/ Z.of_nat (List.length (positions (mask_bits (List.length (sat_ids a) * List.length (sig_ids b)) c))) < i) ->
+  set_single T ident anam index (o, offset) = Foreign XKey.
+Proof.
+  intros Hf Hty Hn Hm Hi Hr. pose proof (cellmap_outside prnmap sigmap (t_na T) rinex a b c i Hr) as Hz.
+  destruct Hty as [Hty|Hty].
+  - destruct (set_single_cpr_fail T ident anam index fd o offset Hf Hty Hn) as (_ & _ & F). exact (F i rest _ Hi Hm Hz).
+  - destruct (set_single_csg_fail T ident anam index fd o offset Hf Hty Hn) as (_ & _ & F). exact (F i rest _ Hi Hm Hz).
+Qed.
+
+(* ---------- the labels are the standard's, once the per-run table check has passed ---------- *)
+Lemma select_In {A} bs (l:list A) x : In x (select bs l) -> In x l.
+Proof.
+  revert l. induction bs as [|b bs IH]; intros [|y l] H; simpl in H; try contradiction.
+  destruct b; [destruct H as [H|H]; [now left|]|]; right; now apply IH.
+Qed.
+
+Lemma cells_In {A B} (sats:list A) (sigs:list B) c s g : In (s, g) (cells sats sigs c) -> In s sats /\ In g sigs.
+Proof.
+  intro H. apply select_In in H. unfold cell_pairs in H. apply in_flat_map in H.
+  destruct H as (s' & Hs & H). apply in_map_iff in H. destruct H as (g' & E & Hg). inversion E; subst. auto.
+Qed.
+
+Theorem pinned_labels k : prnsig_matches (t_prnsig T) = true -> In k pinned_keys ->
+  exists prnmap sigmap pp ps,
+    assoc k (t_prnsig T) = Some (prnmap, sigmap) /\ assoc k pinned_prn = Some pp /\ assoc k pinned_sig = Some ps /\
+    forall na,
+      (forall id, 0 <= id <= 64 -> prn_label prnmap na id = prn_label pp na id) /\
+      (forall id rinex, 0 <= id <= 32 -> sig_label sigmap na rinex id = sig_label ps na rinex id).
+Proof.
+  intros Hm Hk. destruct (prnsig_matches_sound _ Hm k Hk) as (pm & sm & pp & ps & H1 & H2 & H3 & H4 & H5).
+  exists pm, sm, pp, ps. repeat split; auto.
+  - intros id Hid. unfold prn_label. now rewrite <- !zassoc_zlookup, H4.
+  - intros id rinex Hid. unfold sig_label. now rewrite <- !zassoc_zlookup, H5.
+Qed.
+
+Theorem getsatcellmaps_pinned ident o a b c :
+  prnsig_matches (t_prnsig T) = true -> In (substring 0 3 ident) pinned_keys ->
+  getint o "DF394" = Ok a -> getint o "DF395" = Ok b -> getint o "DF396" = Ok c ->
+  0 <= a < 2^64 -> 0 <= b < 2^32 -> 0 <= c ->
+  exists pp ps,
+    assoc (substring 0 3 ident) pinned_prn = Some pp /\ assoc (substring 0 3 ident) pinned_sig = Some ps /\
+    getsatcellmaps T ident o =
+    Ok (with_maps o (spec_satmap pp (t_na T) a) (spec_cellmap pp ps (t_na T) (negb (o_labelmsm o =? 2)) a b c)).
+Proof.
+  intros Hm Hk Ha Hb Hc Ra Rb Rc.
+  destruct (pinned_labels _ Hm Hk) as (pm & sm & pp & ps & H1 & H2 & H3 & HL).
+  destruct (HL (t_na T)) as [Lp Ls].
+  exists pp, ps. split; [exact H2|]. split; [exact H3|].
+  rewrite (getsatcellmaps_spec T ident o a b c pm sm Ha Hb Hc H1 Ra Rb Rc).
+  f_equal. f_equal.
+  - unfold spec_satmap. f_equal. apply map_ext_in. intros id Hid. apply Lp.
+    apply sat_ids_range in Hid. lia.
+  - unfold spec_cellmap. f_equal. apply map_ext_in. intros [s g] Hin. apply cells_In in Hin. destruct Hin as [Hs Hg].
+    apply sat_ids_range in Hs. apply sig_ids_range in Hg. rewrite Lp, Ls by lia. reflexivity.
+Qed.
+End EndToEnd.
+
+(* ====================== closed under the global context ====================== *)
+Print Assumptions scan_positions.
+Print Assumptions scan_positions_low.
+Print Assumptions positions_spec.
+Print Assumptions positions_sorted.
+Print Assumptions popcount_positions.
+Print Assumptions getsatcellmaps_spec.
+Print Assumptions getsatcellmaps_components.
+Print Assumptions nsat_popcount.
+Print Assumptions nsig_popcount.
+Print Assumptions ncell_popcount.
+Print Assumptions ncell_popcount_low.
+Print Assumptions cellmap_low_bits.
+Print Assumptions satmap_length.
+Print Assumptions cellmap_length.
+Print Assumptions satmap_nth.
+Print Assumptions satmap_outside.
+Print Assumptions cellmap_nth.
+Print Assumptions cellmap_outside.
+Print Assumptions label_default.
+Print Assumptions label_default_zassoc.
+Print Assumptions label_defined.
+Print Assumptions set_single_prn.
+Print Assumptions set_single_prn_fail.
+Print Assumptions set_single_prn_inv.
+Print Assumptions set_single_cpr.
+Print Assumptions set_single_cpr_fail.
+Print Assumptions set_single_cpr_inv.
+Print Assumptions set_single_csg.
+Print Assumptions set_single_csg_fail.
+Print Assumptions set_single_csg_inv.
+Print Assumptions set_single_df394.
+Print Assumptions set_single_df395.
+Print Assumptions set_single_df396.
+Print Assumptions get_bits_lt.
+Print Assumptions set_single_prn_msm.
+Print Assumptions set_single_prn_msm_outside.
+Print Assumptions set_single_cpr_msm.
+Print Assumptions set_single_csg_msm.
+Print Assumptions set_single_cell_msm_outside.
+Print Assumptions pinned_labels.
+Print Assumptions getsatcellmaps_pinned.
+Print Assumptions prnsig_matches_sound.
+Print Assumptions label_fields_zero_width_sound.
